@@ -85,7 +85,23 @@ class StubModel:
         return np.array(self._sample[:n], dtype=float)
 
 
-def run_impl(sample, alpha, deg_step, supplied=True, n=None, gen=None, record=True, dtype=None):
+def as_layout(arr, layout):
+    """the same (n, 2) values in another memory layout"""
+    if layout == "F":
+        return np.asfortranarray(arr)
+    if layout == "strided":
+        big = np.empty((2 * len(arr), 4), dtype=arr.dtype)
+        big[:] = -777
+        big[::2, ::2] = arr
+        return big[::2, ::2]
+    if layout == "readonly":
+        arr = arr.copy()
+        arr.setflags(write=False)
+        return arr
+    return arr
+
+
+def run_impl(sample, alpha, deg_step, supplied=True, n=None, gen=None, record=True, dtype=None, layout=None):
     """Runs the real DirectSamplingContour.  Returns dict(coords, rec, n_attr, sample_attr, requested) or dict(err)."""
     import virocon.contours as vc
     rec = NpRecorder(np)
@@ -96,7 +112,8 @@ def run_impl(sample, alpha, deg_step, supplied=True, n=None, gen=None, record=Tr
     try:
         try:
             if supplied:
-                c = vc.DirectSamplingContour(model, alpha, n=n, deg_step=deg_step, sample=np.array(sample, dtype=float).astype(dtype or float))
+                c = vc.DirectSamplingContour(model, alpha, n=n, deg_step=deg_step,
+                                             sample=as_layout(np.array(sample, dtype=float).astype(dtype or float), layout))
             else:
                 c = vc.DirectSamplingContour(model, alpha, n=n, deg_step=deg_step)
         except Exception as e:  # noqa
@@ -204,7 +221,76 @@ def gen_cases(ctx):
         kind, cloud = gen_cloud(rng, nprng, max(n_eff, 50) + 7)
         cases.append({"cloud": 100000 + j, "kind": kind, "sample": cloud, "alpha": alpha, "deg_step": rng.choice([5, 6, 10, 12, 20, 30, 45, 60]),
                       "supplied": False, "n": n_given})
+    cases += edge_cases(ctx, rng, nprng)
     return cases
+
+
+NON_DIVISORS = [7, 11, 13, 17, 50, 0.7, 2.3, 33.3, 59, 7.0, 100, 90, 120, 180, 360]
+
+
+def edge_cases(ctx, rng, nprng):
+    """outside or on the rim of the property's quantifier, inside the model: steps that do not divide 360 (and steps giving
+    fewer than 3 directions), tiny samples, degenerate clouds, alpha at and beyond its range, memory layouts, n given together
+    with a sample.  All go through the correspondence; the oracle judges them as far as the property's claim extends."""
+    out = []
+    cid = [300000]
+
+    def add(kind, pts, alpha, ds, **kw):
+        cid[0] += 1
+        c = {"cloud": kw.pop("cloud", cid[0]), "kind": kind, "sample": np.asarray(pts, dtype=float), "alpha": alpha, "deg_step": ds,
+             "supplied": True, "n": None}
+        c.update(kw)
+        if c.get("dtype"):
+            c["sample"] = c["sample"].astype(c["dtype"]).astype(float)
+        out.append(c)
+        return c
+
+    reps = ctx.n(1, 6)
+    for _ in range(reps):
+        kind, cloud = gen_cloud(rng, nprng, rng.randrange(50, 120))
+        cid[0] += 1
+        for ds in NON_DIVISORS if _ == 0 else rng.sample(NON_DIVISORS, 6):
+            add("nondivisor/" + kind, cloud, gen_alpha(rng, len(cloud)), ds, cloud=cid[0])
+        # tiny samples (below the property's n >= 50)
+        for n in [1, 2, 3, 5, 10, 49]:
+            kind2, small = gen_cloud(rng, nprng, n)
+            add("tiny/" + kind2, small, rng.choice([0.3, 0.1, 0.01, 0.5]), rng.choice([5, 10, 7, 45]))
+        # alpha on and beyond the rim
+        kind3, cloud3 = gen_cloud(rng, nprng, rng.randrange(50, 90))
+        cid[0] += 1
+        for a in [1e-4, 0.3, 0.5, 0.9, 0.999, 1e-6, 1.0]:
+            add("alpha-rim/" + kind3, cloud3, a, rng.choice([10, 12, 36]), cloud=cid[0])
+        # degenerate clouds
+        m = rng.randrange(50, 80)
+        add("constant", np.full((m, 2), rng.choice([0.0, 3.5, -2.0])), 0.1, rng.choice([10, 30]))
+        add("two-points", np.array([[0.0, 0.0], [1.0, 2.0]] * (m // 2)), rng.choice([0.1, 0.5, 0.01]), 10)
+        add("on-axis", np.column_stack([nprng.standard_normal(m), np.zeros(m)]), 0.1, rng.choice([5, 10]))
+        add("one-outlier", np.vstack([np.zeros((m - 1, 2)), [[1e6, -1e6]]]), rng.choice([0.1, 1e-4]), 10)
+        # memory layouts and dtypes of the supplied array; n given although a sample is supplied (n is then unused)
+        kind4, cloud4 = gen_cloud(rng, nprng, rng.randrange(50, 90))
+        cloud4 = np.clip(np.round(cloud4 * 4), -1000, 1000)
+        cid[0] += 1
+        for lay, dt in [("F", None), ("strided", None), ("readonly", None), (None, "int32"), ("F", "int64"), ("strided", "float32"), (None, "float16")]:
+            add("layout/" + kind4, cloud4, 0.07, rng.choice([6, 10]), cloud=cid[0], layout=lay, dtype=dt)
+        add("n-and-sample/" + kind4, cloud4, 0.1, 10, cloud=cid[0], n=rng.choice([1, 17, 100000]))
+    # drawn samples of unusual size
+    for n_given, alpha in [(1, 0.1), (3, 0.2), (49, 0.05), (None, 0.3), (None, 0.29)]:
+        kind5, cloud5 = gen_cloud(rng, nprng, (n_given or int(100 / alpha)) + 3)
+        add("drawn-edge/" + kind5, cloud5, alpha, rng.choice([10, 7]), supplied=False, n=n_given)
+    return out
+
+
+def corpus_cases():
+    """minimised past failures (corpus/C03/*.json, replay dictionaries): always run first through the oracle"""
+    import glob
+    import json
+    import os
+    out = []
+    for fn in sorted(glob.glob(os.path.join(vlib.VERIF, "corpus", "C03", "*.json"))):
+        d = json.load(open(fn))
+        d = d.get("replay", d)
+        out.append(dict(d, cloud=-1, kind="corpus/" + os.path.basename(fn), sample=np.array(d["sample"], dtype=float)))
+    return out
 
 
 # ------------------------------------------------------------------ Coq side
@@ -260,7 +346,7 @@ def n_directions(deg_step):
 def oracle(c, r=None):
     """None if the property holds on this configuration, else (signature, message)."""
     if r is None:
-        r = run_impl(c["sample"], c["alpha"], c["deg_step"], c["supplied"], c["n"], dtype=c.get("dtype"))
+        r = run_impl(c["sample"], c["alpha"], c["deg_step"], c["supplied"], c["n"], dtype=c.get("dtype"), layout=c.get("layout"))
     cls = "DirectSamplingContour"
     if "err" in r:
         return ({"class": cls, "clause": "exception"}, "DirectSamplingContour raised " + r["err"])
@@ -287,7 +373,11 @@ def oracle(c, r=None):
     if V.ndim != 2 or V.shape[1] != 2:
         return ({"class": cls, "clause": "shape"}, "coordinates have shape %r" % (V.shape,))
     M = len(V)
+    if N < 3:
+        return None      # fewer than three directions do not bound a polygon (neighbouring tangent lines are parallel)
+    n = len(x)
     pmax = float(np.max(np.hypot(x, y)))
+    beyond = []
     # direction of edge k (from V[k-1] to V[k]): the first direction is 90 deg + deg_step, decreasing by deg_step
     bad = []
     for k in range(M):
@@ -297,10 +387,18 @@ def oracle(c, r=None):
         p0, p1 = V[k - 1], V[k]
         tol = 1e-7 * max(1.0, abs(q), float(np.hypot(*p0)) if np.all(np.isfinite(p0)) else 1.0,
                          float(np.hypot(*p1)) if np.all(np.isfinite(p1)) else 1.0) + 1e-12 * pmax
+        proj = x * nx + y * ny
         for which, p in (("start", p0), ("end", p1)):
             off = p[0] * nx + p[1] * ny
             if not (abs(off - q) <= tol):
                 bad.append((k, which, float(off), q))
+            elif 0 <= alpha <= 1:
+                # "a fraction alpha of the sample lies beyond it", counted on the polygon's own line (exact up to one
+                # observation: fewer than (n-1) alpha + 1 strictly beyond, at least (n-1) alpha at or beyond)
+                n_gt = int(np.sum(proj > off + tol))
+                n_ge = int(np.sum(proj >= off - tol))
+                if not (n_gt < (n - 1) * alpha + 1 + 1e-9 and n_ge >= (n - 1) * alpha - 1e-9):
+                    beyond.append((k, n_gt, n_ge))
     if M != N:
         sig = {"class": cls, "vertex": "count", "clause": "cover-once"}
         if cond:
@@ -317,6 +415,11 @@ def oracle(c, r=None):
         return (sig, "deg_step=%r alpha=%r n=%d: vertex %s of %d is not on the tangent line of direction %.6g deg "
                      "(offset %r along the normal, (1-alpha)-quantile of the projected sample %r)" % (
                          deg_step, alpha, len(x), verts, M, math.degrees(0.5 * math.pi + s - k * s), off, q))
+    if beyond:
+        k, n_gt, n_ge = beyond[0]
+        return ({"class": cls, "clause": "fraction-beyond"},
+                "deg_step=%r alpha=%r n=%d: %d observations strictly beyond / %d at or beyond the line of edge %d, expected a fraction alpha "
+                "(fewer than %.6g strictly beyond, at least %.6g at or beyond)" % (deg_step, alpha, n, n_gt, n_ge, k, (n - 1) * alpha + 1, (n - 1) * alpha))
     return None
 
 
@@ -348,7 +451,7 @@ def shrink(c, sig):
 
 
 def to_replay(c):
-    return {"dtype": c.get("dtype"), "sample": [[float(a), float(b)] for a, b in c["sample"]], "alpha": c["alpha"], "deg_step": c["deg_step"],
+    return {"dtype": c.get("dtype"), "layout": c.get("layout"), "sample": [[float(a), float(b)] for a, b in c["sample"]], "alpha": c["alpha"], "deg_step": c["deg_step"],
             "supplied": c["supplied"], "n": c["n"]}
 
 
@@ -404,9 +507,11 @@ def run(ctx):
     sid_of = {}
     for c in cases:
         c["sid"] = sid_of.setdefault(c["cloud"], len(sid_of))
-        r = run_impl(c["sample"], c["alpha"], c["deg_step"], c["supplied"], c["n"], dtype=c.get("dtype"))
+        r = run_impl(c["sample"], c["alpha"], c["deg_step"], c["supplied"], c["n"], dtype=c.get("dtype"), layout=c.get("layout"))
         results.append(r)
-        key = "%s/%s" % (c["kind"], "supplied" if c["supplied"] else "drawn")
+        key = "%s/%s" % (c["kind"].split("/")[0], "supplied" if c["supplied"] else "drawn")
+        if c.get("dtype") or c.get("layout"):
+            dist["array:%s/%s" % (c.get("dtype") or "float64", c.get("layout") or "C")] = dist.get("array:%s/%s" % (c.get("dtype") or "float64", c.get("layout") or "C"), 0) + 1
         dist[key] = dist.get(key, 0) + 1
         if "err" not in r:
             conflicts += r["rec"].conflicts
@@ -467,7 +572,8 @@ def run(ctx):
     found = 0
     seen_sig = set()
     order = suspects + [i for i in range(len(cases)) if i not in set(suspects)]
-    stream = [(cases[i], results[i]) for i in order]
+    stream = [(c, None) for c in corpus_cases()] + [(cases[i], results[i]) for i in order]
+    ctx.notes["corpus_cases"] = len(stream) - len(order)
     try:
         extra = real_model_cases(ctx)
         stream += extra
@@ -478,6 +584,8 @@ def run(ctx):
         if found >= 8:
             break
         o = oracle(c, r)
+        if r is None:
+            ctx.cov["evaluations"] += 1
         if o is None:
             continue
         sig, msg = o
